@@ -7,8 +7,12 @@
 * which profile vectors each matrix of key_identification.py is built from
   (`<MATRIX> = build_key_profile_matrix(<maj>, <min>)`, module source, `ast`);
 * the unit preference of `get_time_units_from_note_array` (utils/music.py, `ast`): the two unit
-  sets and, per branch, the chain `if "<field>" in fields: return (<onset>, <duration>)` in source order.
-Nothing is executed besides importing the modules.
+  sets and, per branch, the chain `if "<field>" in fields: return (<onset>, <duration>)` in source order;
+* the method tuple / default of `estimate_key` and the methods for which `estimate_spelling` binds `ps13s1` (`ast`),
+  the keyword parameters of `ps13s1` and `ks_kid` (`inspect.signature`);
+* the LIVE 24 x 12 matrices KRUMHANSL_KESSLER, CMBS, KOSTKA_PAYNE (module values) - `C17.key_matrix_is_model` proves them
+  equal, entry by entry, to the rotations the model computes by formula.
+Nothing is executed besides importing the modules.  The generator never raises: see `PINNED` / `extract`.
 """
 import ast
 import inspect
@@ -16,7 +20,7 @@ import textwrap
 
 
 def _lstr(s):
-    return '"%s"' % s
+    return '"%s"' % str(s).replace("\\", "\\\\").replace('"', '\\"')
 
 
 def _llist(items):
@@ -139,37 +143,206 @@ def _time_units(M):
     return [(first, sets[first], _chain(top.body[0])), (second, sets[second], _chain(second_if.body[0]))]
 
 
-def gen_c17():
-    import partitura.musicanalysis.voice_separation as VS
-    import partitura.musicanalysis.key_identification as KI
-    import partitura.utils.globals as G
-    import partitura.utils.music as M
+# the last known values (partitura at the commit the model was written against): emitted, and listed in
+# `C17_PINNED`, when the source can no longer be read in the expected shape - the generator never raises
+# (the shared translator must keep working for every property) and the driver keeps building, so the
+# correspondence and the oracle still run; `C17.c17_tables_extracted` (Props/C17Tables.lean) then fails to build
+PINNED = {
+    "VOSA_MAX_COST": 1000,
+    "VALID_KEY_PROFILES": ["krumhansl_kessler", "kk", "temperley", "tp", "kostka_payne", "kp"],
+    "KS_KID_ALIASES": [(["ks", "kk", "krumhansl_kessler"], "KRUMHANSL_KESSLER"), (["temperley", "tp", "cmbs"], "CMBS"),
+                       (["kp", "kostka_payne"], "KOSTKA_PAYNE")],
+    "KEY_MATRIX_ARGS": [("KRUMHANSL_KESSLER", "key_prof_maj_kk", "key_prof_min_kk"), ("CMBS", "key_prof_maj_cbms", "key_prof_min_cbms"),
+                        ("KOSTKA_PAYNE", "key_prof_maj_kp", "key_prof_min_kp")],
+    "KS_KID_DEFAULT": "KRUMHANSL_KESSLER",
+    "ESTIMATE_KEY_DEFAULT": "krumhansl_kessler",
+    "ESTIMATE_KEY_METHODS": ["krumhansl"],
+    "ESTIMATE_KEY_METHOD_DEFAULT": "krumhansl",
+    "ESTIMATE_SPELLING_METHODS": ["ps13s1"],
+    "ESTIMATE_SPELLING_METHOD_DEFAULT": "ps13s1",
+    "PS13_KWARGS": ["K_pre", "K_post"],
+    "KS_KID_KWARGS": ["key_profiles", "return_sorted_keys"],
+    "TIME_UNIT_BRANCHES": [
+        ("score_units", ["onset_beat", "onset_quarter", "onset_div"],
+         [("onset_beat", "onset_beat", "duration_beat"), ("onset_quarter", "onset_quarter", "duration_quarter"),
+          ("onset_div", "onset_div", "duration_div")]),
+        ("performance_units", ["onset_sec", "onset_tick"],
+         [("onset_sec", "onset_sec", "duration_sec"), ("onset_tick", "onset_tick", "duration_tick")])],
+}
 
+
+def _plain(x):
+    if isinstance(x, str):
+        if any(ord(ch) < 32 or ord(ch) > 126 or ch in '"\\' for ch in x):
+            raise RuntimeError("a name with characters the generated file cannot hold: %r" % x)
+        return x
+    if isinstance(x, (list, tuple)):
+        return type(x)(_plain(y) for y in x)
+    return x
+
+
+def _estimate_key_methods(KI):
+    """the tuple of `if method not in (<names>): raise` of estimate_key and the default of `method`"""
+    tree = ast.parse(textwrap.dedent(inspect.getsource(KI.estimate_key)))
+    found = []
+    for node in ast.walk(tree):
+        if isinstance(node, ast.If) and isinstance(node.test, ast.Compare) and len(node.test.ops) == 1 \
+                and isinstance(node.test.ops[0], ast.NotIn) and isinstance(node.test.left, ast.Name) \
+                and node.test.left.id == "method" and node.body and isinstance(node.body[0], ast.Raise):
+            found.append(_str_tuple(node.test.comparators[0]))
+    if len(found) != 1:
+        raise RuntimeError("translate_c17: expected one `method not in (...)` rejection in estimate_key, found %d" % len(found))
+    d = inspect.signature(KI.estimate_key).parameters["method"].default
+    if not isinstance(d, str):
+        raise RuntimeError("translate_c17: default `method` of estimate_key is not a name")
+    # every accepted method must bind `kid` in an `if method == "<name>":` branch
+    bound = []
+    for node in ast.walk(tree):
+        if isinstance(node, ast.If) and isinstance(node.test, ast.Compare) and len(node.test.ops) == 1 \
+                and isinstance(node.test.ops[0], ast.Eq) and isinstance(node.test.left, ast.Name) \
+                and node.test.left.id == "method" and isinstance(node.test.comparators[0], ast.Constant):
+            if any(isinstance(b, ast.Assign) and isinstance(b.targets[0], ast.Name) and b.targets[0].id == "kid"
+                   and isinstance(b.value, ast.Name) and b.value.id == "ks_kid" for b in node.body):
+                bound.append(node.test.comparators[0].value)
+    return [m for m in found[0] if m in bound], d
+
+
+def _estimate_spelling_methods(PS):
+    """the methods for which estimate_spelling binds `ps` (`if method == "<name>": ps = ps13s1`), and the default"""
+    tree = ast.parse(textwrap.dedent(inspect.getsource(PS.estimate_spelling)))
+    bound = []
+    for node in ast.walk(tree):
+        if isinstance(node, ast.If) and isinstance(node.test, ast.Compare) and len(node.test.ops) == 1 \
+                and isinstance(node.test.ops[0], ast.Eq) and isinstance(node.test.left, ast.Name) \
+                and node.test.left.id == "method" and isinstance(node.test.comparators[0], ast.Constant):
+            if any(isinstance(b, ast.Assign) and isinstance(b.targets[0], ast.Name) and b.targets[0].id == "ps"
+                   and isinstance(b.value, ast.Name) and b.value.id == "ps13s1" for b in node.body):
+                bound.append(node.test.comparators[0].value)
+    d = inspect.signature(PS.estimate_spelling).parameters["method"].default
+    if not bound or not isinstance(d, str):
+        raise RuntimeError("translate_c17: estimate_spelling binds no method to ps13s1")
+    return bound, d
+
+
+def _kwargs_of(fn):
+    """the keyword parameters of a function after its first (the note array)"""
+    ps = list(inspect.signature(fn).parameters.values())[1:]
+    if any(p.kind not in (p.POSITIONAL_OR_KEYWORD, p.KEYWORD_ONLY) for p in ps):
+        raise RuntimeError("translate_c17: %s takes *args / **kwargs" % fn.__name__)
+    return [p.name for p in ps]
+
+
+def _matrices(KI, names):
+    """the live 24 x 12 matrices, every entry as the decimal its shortest repr denotes (the same reading
+    translate.py uses for the profile vectors of globals.py, so equal floats give equal rationals)"""
+    from fractions import Fraction
+    out = []
+    for nm in names:
+        m = getattr(KI, nm)
+        rows = [[Fraction(repr(float(v))) for v in row] for row in m]
+        out.append((nm, rows))
+    return out
+
+
+def extract():
+    """({name: value}, [(name, reason)])"""
+    vals = dict(PINNED)
+    vals["KEY_MATRICES"] = []
+    pinned = []
+
+    def attempt(names, fn):
+        try:
+            got = _plain(fn())
+            for nm, v in zip(names, got):
+                vals[nm] = v
+        except Exception as e:
+            for nm in names:
+                pinned.append((nm, "%s: %s" % (type(e).__name__, str(e)[:160].replace("\n", " "))))
+
+    try:
+        import partitura.musicanalysis.voice_separation as VS
+        import partitura.musicanalysis.key_identification as KI
+        import partitura.musicanalysis.pitch_spelling as PS
+        import partitura.utils.globals as G
+        import partitura.utils.music as M
+    except Exception as e:
+        return vals, [(nm, "import failed: %s" % type(e).__name__) for nm in sorted(PINNED)]
+
+    def max_cost():
+        v = VS.MAX_COST
+        if int(v) != v:
+            raise RuntimeError("MAX_COST is not an integer")
+        return [int(v)]
+
+    attempt(["VOSA_MAX_COST"], max_cost)
+    attempt(["VALID_KEY_PROFILES"], lambda: [[str(s) for s in G.VALID_KEY_PROFILES]])
+    attempt(["KS_KID_ALIASES"], lambda: [_ks_kid_aliases(KI)])
+    attempt(["KEY_MATRIX_ARGS"], lambda: [_matrix_args(KI)])
+    attempt(["KS_KID_DEFAULT"], lambda: [_ks_kid_default(KI)])
+    attempt(["ESTIMATE_KEY_DEFAULT"], lambda: [_estimate_key_default(KI)])
+    attempt(["ESTIMATE_KEY_METHODS", "ESTIMATE_KEY_METHOD_DEFAULT"], lambda: _estimate_key_methods(KI))
+    attempt(["ESTIMATE_SPELLING_METHODS", "ESTIMATE_SPELLING_METHOD_DEFAULT"], lambda: _estimate_spelling_methods(PS))
+    attempt(["PS13_KWARGS"], lambda: [_kwargs_of(PS.ps13s1)])
+    attempt(["KS_KID_KWARGS"], lambda: [_kwargs_of(KI.ks_kid)])
+    attempt(["TIME_UNIT_BRANCHES"], lambda: [_time_units(M)])
+    attempt(["KEY_MATRICES"], lambda: [_matrices(KI, [a for a, _, _ in vals["KEY_MATRIX_ARGS"]])])
+    return vals, pinned
+
+
+def _lrat(f):
+    if f.denominator == 1:
+        return "(%d : Rat)" % f.numerator
+    return "((%d : Rat) / %d)" % (f.numerator, f.denominator)
+
+
+def gen_c17():
+    vals, pinned = extract()
     out = []
     w = out.append
     w("/- GENERATED by harness/translate_c17.py from /repo (voice_separation.py, key_identification.py,")
-    w("   utils/globals.py, utils/music.py).  Do not edit. -/")
+    w("   pitch_spelling.py, utils/globals.py, utils/music.py).  Do not edit. -/")
     w("namespace Gen\n")
     w("/-- `MAX_COST` of voice_separation.py -/")
-    w("def VOSA_MAX_COST : Int := %d\n" % int(VS.MAX_COST))
+    w("def VOSA_MAX_COST : Int := %d\n" % vals["VOSA_MAX_COST"])
     w("/-- `VALID_KEY_PROFILES` (what `estimate_key` accepts as `key_profiles`) -/")
-    w("def VALID_KEY_PROFILES : List String := %s\n" % _llist(_lstr(s) for s in G.VALID_KEY_PROFILES))
+    w("def VALID_KEY_PROFILES : List String := %s\n" % _llist(_lstr(s) for s in vals["VALID_KEY_PROFILES"]))
     w("/-- the alias branches of `ks_kid` in source order: (names, matrix) -/")
     w("def KS_KID_ALIASES : List (List String × String) := %s\n" % _llist(
-        "(%s, %s)" % (_llist(_lstr(s) for s in names), _lstr(m)) for names, m in _ks_kid_aliases(KI)))
+        "(%s, %s)" % (_llist(_lstr(s) for s in names), _lstr(m)) for names, m in vals["KS_KID_ALIASES"]))
     w("/-- `<matrix> = build_key_profile_matrix(<major profile>, <minor profile>)` -/")
     w("def KEY_MATRIX_ARGS : List (String × String × String) := %s\n" % _llist(
-        "(%s, %s, %s)" % (_lstr(a), _lstr(b), _lstr(c)) for a, b, c in _matrix_args(KI)))
+        "(%s, %s, %s)" % (_lstr(a), _lstr(b), _lstr(c)) for a, b, c in vals["KEY_MATRIX_ARGS"]))
     w("/-- default `key_profiles` of `ks_kid` (a matrix) and of `estimate_key` (a name) -/")
-    w("def KS_KID_DEFAULT : String := %s" % _lstr(_ks_kid_default(KI)))
-    w("def ESTIMATE_KEY_DEFAULT : String := %s\n" % _lstr(_estimate_key_default(KI)))
+    w("def KS_KID_DEFAULT : String := %s" % _lstr(vals["KS_KID_DEFAULT"]))
+    w("def ESTIMATE_KEY_DEFAULT : String := %s\n" % _lstr(vals["ESTIMATE_KEY_DEFAULT"]))
+    w("/-- `estimate_key(method=...)`: the methods that pass `if method not in (...)` AND bind `kid = ks_kid`; the default -/")
+    w("def ESTIMATE_KEY_METHODS : List String := %s" % _llist(_lstr(s) for s in vals["ESTIMATE_KEY_METHODS"]))
+    w("def ESTIMATE_KEY_METHOD_DEFAULT : String := %s\n" % _lstr(vals["ESTIMATE_KEY_METHOD_DEFAULT"]))
+    w("/-- `estimate_spelling(method=...)`: the methods that bind `ps = ps13s1`; the default -/")
+    w("def ESTIMATE_SPELLING_METHODS : List String := %s" % _llist(_lstr(s) for s in vals["ESTIMATE_SPELLING_METHODS"]))
+    w("def ESTIMATE_SPELLING_METHOD_DEFAULT : String := %s\n" % _lstr(vals["ESTIMATE_SPELLING_METHOD_DEFAULT"]))
+    w("/-- the keyword parameters `**kwargs` may carry: those of `ps13s1` / `ks_kid` after the note array, in order -/")
+    w("def PS13_KWARGS : List String := %s" % _llist(_lstr(s) for s in vals["PS13_KWARGS"]))
+    w("def KS_KID_KWARGS : List String := %s\n" % _llist(_lstr(s) for s in vals["KS_KID_KWARGS"]))
     w("/-- `get_time_units_from_note_array`: the branches in source order: (unit set, chain of")
     w("    (field tested, onset field returned, duration field returned)) -/")
-    tu = _time_units(M)
     w("def TIME_UNIT_BRANCHES : List (List String × List (String × String × String)) := %s\n" % _llist(
         "(%s, %s)" % (_llist(_lstr(s) for s in units),
                       _llist("(%s, %s, %s)" % (_lstr(f), _lstr(a), _lstr(b)) for f, a, b in chain))
-        for _, units, chain in tu))
+        for _, units, chain in vals["TIME_UNIT_BRANCHES"]))
+    w("/-- the LIVE profile matrices of key_identification.py (`build_key_profile_matrix` evaluated at import), one per")
+    w("    entry of KEY_MATRIX_ARGS: every entry as the decimal its shortest repr denotes -/")
+    w("def KEY_MATRICES : List (String × List (List Rat)) := [")
+    mats = vals["KEY_MATRICES"]
+    for k, (nm, rows) in enumerate(mats):
+        w("  (%s, [" % _lstr(nm))
+        for i, row in enumerate(rows):
+            w("    %s%s" % (_llist(_lrat(v) for v in row), "," if i + 1 < len(rows) else ""))
+        w("  ])%s" % ("," if k + 1 < len(mats) else ""))
+    w("]\n")
+    w("/-- the values above that could NOT be read from the source and hold their last known value instead,")
+    w("    with the reason (empty on a tree the translator understands; `C17.c17_tables_extracted`) -/")
+    w("def C17_PINNED : List (String × String) := %s\n" % _llist("(%s, %s)" % (_lstr(n), _lstr(r)) for n, r in pinned))
     w("end Gen")
     return "\n".join(out) + "\n"
 
